@@ -348,14 +348,28 @@ func c15MakeJoinLeave(c *mon.Ctx, r *gen.Rand, sc *simScenario, b *simBranch) {
 		c.Case(name, map[string]any{"version": s.ver, "case": rcse.name, "authoriser_entitled": entitled, "template_passes_auth": authOK}, func() {
 			q := &c15querier{state: rb.state, pending: rcse.pending, info: map[string]*gmsl.RestrictedRoomJoinInfo{}}
 			info := &gmsl.RestrictedRoomJoinInfo{LocalServerInRoom: rcse.resident, UserJoinedToRoom: rcse.userIn}
+			// the room's joined members as the querier sees them: members of other servers come first, whatever their
+			// power; only one of the local server's own users can vouch for the join
+			if rcse.resident && rcse.userIn {
+				for _, u := range s.users {
+					if serverOf(u) != c15local && s.membership(rb, u) == "join" {
+						info.JoinedUsers = append(info.JoinedUsers, rb.state[stKey{"m.room.member", u}])
+					}
+				}
+			}
 			if rcse.candidate != "" {
-				info.JoinedUsers = []gmsl.PDU{rb.state[stKey{"m.room.member", rcse.candidate}]}
+				info.JoinedUsers = append(info.JoinedUsers, rb.state[stKey{"m.room.member", rcse.candidate}])
 			}
 			q.info[allowedRoom] = info
 			resp, err := gmsl.HandleMakeJoin(gmsl.HandleMakeJoinInput{Context: context.Background(), UserID: uid, SenderID: spec.SenderID(joiner), RoomID: s.create.RoomID(), RoomVersion: s.ver,
 				RemoteVersions: []gmsl.RoomVersion{s.ver}, RequestOrigin: "other.example", LocalServerName: spec.ServerName(c15local), LocalServerInRoom: true, RoomQuerier: q, UserIDQuerier: userIDForSender, BuildEventTemplate: build})
 			c15verdict(c, "make_join", name, want, err == nil, "restricted:"+rcse.name, s.ver)
 			c.Count("restricted_make_join_calls")
+			if err == nil {
+				if via := ref.MustParse(resp.JoinTemplateEvent.Content).Get("join_authorised_via_users_server"); via != nil && via.K == ref.Str && serverOf(via.S) != c15local {
+					c.Failf("make_join:authoriser-not-local", "the restricted make_join template names %s, a user of another server, as the authorising user", via.S)
+				}
+			}
 			if err == nil && guard && !rcse.pending && !strings.Contains(string(resp.JoinTemplateEvent.Content), rcse.candidate) {
 				c.Failf("make_join:authoriser-not-in-template", "restricted make_join template does not name the authorising user %s: %s", rcse.candidate, resp.JoinTemplateEvent.Content)
 			}
@@ -768,7 +782,7 @@ func c15PerformJoin(c *mon.Ctx, r *gen.Rand, sc *simScenario, b *simBranch) {
 				continue
 			}
 			// a complete, internally valid room whose create event names an unknown room version
-			simCreateVersionOverride = "9000"
+			simCreateVersionOverride = gen.Pick(r, []string{"9000", "9000", "<empty>"})
 			alt := genScenario(r.Fork("altroom"), s.ver, 2)
 			simCreateVersionOverride = ""
 			if r.Chance(0.5) {
@@ -919,8 +933,13 @@ func c15PerformJoinOn(c *mon.Ctx, r *gen.Rand, sc *simScenario, rb *simBranch, v
 			var out *gmsl.PerformJoinResponse
 			var ferr *gmsl.FederationError
 			site, msg, pan := mon.Guard(func() {
-				out, ferr = gmsl.PerformJoin(context.Background(), client, gmsl.PerformJoinInput{UserID: &uid, RoomID: &rid, ServerName: spec.ServerName(c15local), PrivateKey: jid.Priv, KeyID: gmsl.KeyID(jid.KeyID),
-					KeyRing: c14ring, EventProvider: mkProvider(provNothing, nil, &asked), UserIDQuerier: userIDForSender})
+				in := gmsl.PerformJoinInput{UserID: &uid, RoomID: &rid, ServerName: spec.ServerName(c15local), PrivateKey: jid.Priv, KeyID: gmsl.KeyID(jid.KeyID),
+					KeyRing: c14ring, EventProvider: mkProvider(provNothing, nil, &asked), UserIDQuerier: userIDForSender}
+				if echo == 0 && r.Chance(0.5) {
+					// the joining server's own annotation for the event; whether it can be attached or not, the join is the join
+					in.Unsigned = map[string]interface{}{"note": "local", "score": 0.5, "big": 9007199254740993}
+				}
+				out, ferr = gmsl.PerformJoin(context.Background(), client, in)
 			})
 			if pan {
 				c.Failf("perform_join:panic:"+site, "PerformJoin panics: %s", msg)
